@@ -40,7 +40,7 @@ def run_property(prop, tier, model=None, write=True, quiet=False):
             # the tree verdict above is complete; the adequacy run and the package-wide cross-reference lints only add
             # evidence (they never change the verdict of the tree)
             try:
-                rep.adequacy = thorough_extras(prop, model)
+                rep.adequacy = thorough_extras(prop, model, {o.file for o in rep.obs})
             except Exception as e:  # never let the extras mask the verdict
                 rep.adequacy = {'error': repr(e)}
         code = rep.finalize(write=write)
@@ -48,6 +48,12 @@ def run_property(prop, tier, model=None, write=True, quiet=False):
             a = rep.adequacy.get('mutation_selftest', {})
             print('ADEQUACY %s: %d breaker(s) (%d caught, %d skipped), %d neutral variant(s) (%d noisy)'
                   % (prop, a.get('breakers', 0), a.get('caught', 0), a.get('skipped', 0), a.get('neutrals', 0), a.get('noisy', 0)))
+            c = rep.adequacy.get('corpus') or {}
+            if c:
+                print('CORPUS %s: neutral refactorings %d applied / %d silent ; seeded changes recorded for this check %d / %d still caught%s'
+                      % (prop, c['neutral']['applied'], c['neutral']['silent'], c['seeds']['expected'], c['seeds']['caught'],
+                         (' ; noisy %s lost %s' % ([n['tree'] for n in c['neutral']['noisy']], c['seeds']['lost'])
+                          if c['neutral']['noisy'] or c['seeds']['lost'] else '')))
             if (a.get('not_caught') or a.get('noisy')) and os.environ.get('SA_STRICT_ADEQUACY') == '1' and code == 0:
                 print('ANALYSIS-ERROR property=%s adequacy self-test failed' % prop)
                 return 2, rep
@@ -70,7 +76,7 @@ def run_property(prop, tier, model=None, write=True, quiet=False):
         return 2, rep
 
 
-def thorough_extras(prop, model):
+def thorough_extras(prop, model, files=None):
     """adequacy (in-memory breaker / neutral mutants of this property's rules) and package-wide cross-reference lints."""
     from . import mutate
     from .engines import resolve, flow
@@ -82,6 +88,7 @@ def thorough_extras(prop, model):
         'neutrals': len(ne), 'noisy': sum(1 for n in ne if not n['ok']),
         'samples': [{'file': b['file'], 'mutation': '%s  ->  %s' % (b['old'], b['new']), 'rule_fired': b['fired']} for b in br[:6]],
         'note': 'mutants are applied to the parsed sources in memory; a mutant whose anchor text is absent from the current tree is skipped'}}
+    out['corpus'] = corpus_regression(prop, model, files)
     xr = {'undefined_names': [], 'arity': [], 'stale_loop_variables': [], 'unsafe_pops': [], 'array_valued_augassign': [], 'imports': []}
     nfun = ncall = 0
     for name, mod in sorted(model.modules.items()):
@@ -105,6 +112,95 @@ def thorough_extras(prop, model):
     xr['scanned'] = {'modules': len(model.modules), 'functions': nfun, 'call_sites': ncall}
     xr['note'] = 'package-wide lints, cross-reference only: they are reported here and never decide this property'
     out['cross_reference'] = xr
+    return out
+
+
+def _patched_sources(model, diff_path):
+    """{relpath: new source} after applying a unified diff to the *current* sources (in a scratch directory under the system
+    temp dir, removed at once); None when the diff does not apply to this tree."""
+    import re
+    import shutil
+    import subprocess
+    import tempfile
+    text = open(diff_path, encoding='utf-8', errors='replace').read()
+    files = sorted(set(re.findall(r'^\+\+\+ b/(\S+)', text, re.M)))
+    d = tempfile.mkdtemp(prefix='sa-corpus-')
+    try:
+        for rel in files:
+            try:
+                src = model.read(rel)
+            except OSError:
+                return None
+            os.makedirs(os.path.dirname(os.path.join(d, rel)), exist_ok=True)
+            with open(os.path.join(d, rel), 'w', encoding='utf-8') as f:
+                f.write(src)
+        r = subprocess.run(['patch', '-p1', '-s', '-f', '--no-backup-if-mismatch', '-i', os.path.abspath(diff_path)], cwd=d,
+                           capture_output=True, text=True)
+        if r.returncode != 0:
+            return None
+        return {rel: open(os.path.join(d, rel), encoding='utf-8').read() for rel in files if rel.endswith('.py')}
+    finally:
+        shutil.rmtree(d, ignore_errors=True)
+
+
+def corpus_regression(prop, model, files=None):
+    """thorough tier only: the committed corpora applied to the current sources *in memory* -- every behaviour-preserving
+    refactoring (neutral/*/refactor.diff) must leave this check without a violation, and every seeded change recorded as
+    caught by this check (seeded/*/meta.json) must still produce one.  Patches that do not apply to the current tree are
+    skipped.  Recorded in the evidence; never changes the verdict of the tree."""
+    import glob
+    from .report import load_known
+    root = os.path.dirname(os.path.dirname(os.path.abspath(__file__)))
+    pm = importlib.import_module('sa.props.%s' % prop)
+    known = {k['key'] for k in load_known() if k.get('status') == 'open'}
+
+    def verdict(overrides):
+        rep = Report(prop, 'quick', quiet=True)
+        rep.strict = False
+        try:
+            pm.run(Model(repo=model.repo, overrides=overrides, form=form_for(prop)), rep, 'quick')
+        except AnalysisError:
+            pass
+        except Exception as e:
+            return None, ['internal error %r' % e]
+        return sorted({o.rule for o in rep.violations() if o.key() not in known}), getattr(rep, 'undecided_list', [])
+    import re
+    out = {'neutral': {'applied': 0, 'silent': 0, 'noisy': [], 'skipped': 0, 'untouched': 0},
+           'seeds': {'expected': 0, 'caught': 0, 'lost': [], 'skipped': 0}}
+    for diff in sorted(glob.glob(os.path.join(root, 'neutral', '*', 'refactor.diff'))):
+        name = os.path.basename(os.path.dirname(diff))
+        touched = set(re.findall(r'^\+\+\+ b/(\S+)', open(diff, encoding='utf-8', errors='replace').read(), re.M))
+        if files and not (touched & set(files)):
+            # the refactoring edits no file this check has an obligation in: its verdict is that of the tree
+            out['neutral']['untouched'] += 1
+            continue
+        ov = _patched_sources(model, diff)
+        if ov is None:
+            out['neutral']['skipped'] += 1
+            continue
+        fired, und = verdict(ov)
+        out['neutral']['applied'] += 1
+        if fired:
+            out['neutral']['noisy'].append({'tree': name, 'rules': fired})
+        else:
+            out['neutral']['silent'] += 1
+    for mf in sorted(glob.glob(os.path.join(root, 'seeded', '*', 'meta.json'))):
+        try:
+            meta = json.load(open(mf))
+        except ValueError:
+            continue
+        if not any(dd.get('check') == prop for dd in meta.get('detected_by', [])):
+            continue
+        ov = _patched_sources(model, os.path.join(os.path.dirname(mf), 'patch.diff'))
+        if ov is None:
+            out['seeds']['skipped'] += 1
+            continue
+        fired, und = verdict(ov)
+        out['seeds']['expected'] += 1
+        if fired:
+            out['seeds']['caught'] += 1
+        else:
+            out['seeds']['lost'].append(meta.get('id'))
     return out
 
 
